@@ -111,8 +111,10 @@ func (c *collector) snapshot() ([]string, bool) {
 }
 
 // waitFor polls cond with a generous guard; it returns false if the guard expires.
+var guard = 20 * time.Second
+
 func waitFor(cond func() bool) bool {
-	deadline := time.Now().Add(20 * time.Second)
+	deadline := time.Now().Add(guard)
 	for !cond() {
 		if time.Now().After(deadline) {
 			return false
@@ -503,11 +505,19 @@ func main() {
 		seq := 0
 		for in.Scan() {
 			var i int
-			fmt.Sscan(in.Text(), &i)
+			fast := ""
+			fmt.Sscan(in.Text(), &i, &fast)
 			j := jobs[i]
 			cls, what := "", ""
-			// a failure must reproduce on three consecutive executions of the same event order
-			for attempt := 0; attempt < 3; attempt++ {
+			// a failure must reproduce on three consecutive executions of the same event order; once the parent
+			// has collected several confirmed violations the tree is condemned anyway and the remaining orders are
+			// run once with a short guard so that the run ends soon
+			attempts := 3
+			guard = 20 * time.Second
+			if fast == "f" {
+				attempts, guard = 1, 1500*time.Millisecond
+			}
+			for attempt := 0; attempt < attempts; attempt++ {
 				seq++
 				r := runScenario(j.kind, j.nw, j.events, j.settled, dir, seq)
 				cls, what = judge(j.kind, j.nw, j.events, j.settled, r)
@@ -550,7 +560,11 @@ func main() {
 		j := jobs[i]
 		ident, mode, es := describe(j)
 		p := procs[w]
-		fmt.Fprintf(p.in, "%d\n", i)
+		if c.NumViolations() >= 5 {
+			fmt.Fprintf(p.in, "%d f\n", i)
+		} else {
+			fmt.Fprintf(p.in, "%d\n", i)
+		}
 		p.in.Flush()
 		cls, what := "", ""
 		got := false
